@@ -177,6 +177,9 @@ def plan():
         cov = ["alive verdict reachable"] + (["an over-long interval was dropped, others kept"] if n >= 3 else []) + (["ring wrapped around"] if n - 1 > w else [])
         return fdh(f"c10_hist_{cfg}_{w}_{n}", f"c10_history({cfg}, {w}, {n})", cov, tiers, "exact short heartbeat history through the real report path, then silence",
                    {"config": CFG[cfg], "window": w, "arrivals": n, "gaps": "0..3 x max_interval, symbolic whole seconds", "silence": "symbolic"})
+    def histh(cfg, w, n, tiers):
+        return fdh(f"c10_half_{cfg}_{w}_{n}", f"c10_history_half({cfg}, {w}, {n})", ["a sub-second-carrying interval was retained"], tiers, "exact windowed sum off the whole-second grid (each gap = symbolic whole seconds + a concrete half second) through the real report path",
+                   {"config": CFG[cfg], "window": w, "arrivals": n, "gaps": "k + 0.5 s, k symbolic in 0..2 x max_interval"})
     def steady(cfg, w, n, tiers):
         return fdh(f"c11_steady_{cfg}_{w}_{n}", f"c11_steady({cfg}, {w}, {n})", ["dead verdict reachable"] if cfg == 1 and n >= 2 else [], tiers, "steady heartbeats with gaps in [a,b] stay within the threshold",
                    {"config": CFG[cfg], "window": w, "arrivals": n, "a,b": "symbolic, 1 s <= a <= b <= max_interval"})
@@ -188,11 +191,11 @@ def plan():
         return fdh(f"fd_classify_{cfg}", f"fd_classify({cfg})", ["classified live", "classified dead with a window"], tiers, "FailureDetector::update_node_liveness classification glue over an arbitrary window",
                    {"config": CFG[cfg], "window": 4}, funcs=["failure_detector.rs::FailureDetector::{update_node_liveness,phi}"] + F_FD, timeout=1500, mem=8)
     P["C10"] = [hist(0, 1, 2, ("quick", "thorough")), hist(0, 1, 3, ("quick", "thorough")), hist(0, 2, 4, ("quick", "thorough")), hist(4, 2, 4, ("quick", "thorough")), absw(0, True, ("quick", "thorough")), absw(2, True, ("quick", "thorough")),
-                classify(0, ("quick", "thorough"))] + \
+                classify(0, ("quick", "thorough")), histh(4, 2, 4, ("quick", "thorough"))] + \
         [hist(c, w, n, ("thorough",)) for c in (1, 2, 3, 4) for (w, n) in ((1, 3), (2, 4), (3, 5), (1, 4))] + [hist(0, 3, 5, ("thorough",)), hist(0, 1, 4, ("thorough",))] + \
         [absw(c, True, ("thorough",)) for c in (1, 3, 4)] + [classify(c, ("thorough",)) for c in (1, 4)]
     P["C11"] = [steady(0, 2, 3, ("quick", "thorough")), steady(4, 2, 3, ("quick", "thorough")), steady(1, 1, 2, ("quick", "thorough")), steady(0, 1, 1, ("quick", "thorough")), absw(0, False, ("quick", "thorough")), absw(4, False, ("quick", "thorough")),
-                classify(0, ("quick", "thorough"))] + \
+                classify(0, ("quick", "thorough")), histh(4, 2, 4, ("quick", "thorough"))] + \
         [steady(c, w, n, ("thorough",)) for c in (1, 2, 3, 4) for (w, n) in ((1, 3), (2, 4), (3, 4))] + [absw(c, False, ("thorough",)) for c in (1, 2, 3)]
     # ---------------- C05
     lib_rules = R_STATE
